@@ -400,4 +400,10 @@ def R_graph_roles(ctx):
     roles_rule(ctx, "C18.R4")
 
 
-RULES = [R1_R2_dfs, R2_passes, R3_largest, R_graph_roles]
+def R5_adjacency(ctx):
+    """the forward and reverse adjacency the two searches walk are built symmetrically, one row per vertex (shared with C15.R1)"""
+    from props.C15 import R1_adjacency
+    R1_adjacency(ctx)
+
+
+RULES = [R1_R2_dfs, R2_passes, R3_largest, R_graph_roles, R5_adjacency]
